@@ -95,8 +95,11 @@ def language_of(name):
     return LANG.get(name.rsplit(".", 1)[1])
 
 
+DUP = param("dup", False)     # the top-level file and the deep file are byte-identical (vendored copies, empty files): still two files, each with the language of its own name
+
+
 def tree_files(d1, d2, f1, f3):
-    fs = {"/w/src/main.py": "main", "/w/" + FILES[f1]: "f1", "/w/" + DIRS[d1] + "/m.py": "f2", "/w/" + DIRS[d1] + "/" + DIRS[d2] + "/" + FILES[f3]: "f3", "/x/other.py": "outside"}
+    fs = {"/w/src/main.py": "main", "/w/" + FILES[f1]: ("dup" if DUP else "f1"), "/w/" + DIRS[d1] + "/m.py": "f2", "/w/" + DIRS[d1] + "/" + DIRS[d2] + "/" + FILES[f3]: ("dup" if DUP else "f3"), "/x/other.py": "outside"}
     if CFG["gitignore"] is not None:
         fs["/w/.gitignore"] = CFG["gitignore"]
     return fs
@@ -360,8 +363,8 @@ def real_h_check(d1, d2, f3, quiet, bad=None):
 @untraced
 def _scan_sig(d1, d2, f3, rev, rot):
     files = tree_files(d1, d2, 0, f3)
-    files["/w/src/util.js"] = "util"
-    files["/w/lib2/z.py"] = "z"
+    files["/w/src/util.js"] = "dup2"        # byte-identical files under two languages, visited in either order
+    files["/w/lib2/z.py"] = "dup2"
     fs = fsstub.FakeFS(files, cwd="/w", dirs={"/x", "/w/src"})
     if rev or rot:
         def order(names):
@@ -474,6 +477,8 @@ REAL_FILES = {
     "Svc.java": "class Svc {\n  int work(int a) throws E {\n" + _long(62, "    ") + "    return a;\n  }\n  /* nocl */ int skip(int b) {\n" + _long(40, "    ") + "    return b;\n  }\n}\n",
     "lat1.py": b"# caf\xe9\ndef latin(a):\n" + _long(36, "    ", "").encode() + b"    return a\n",
     "twice.py": "class A:\n    def __init__(self):\n" + _long(34, "        ", "") + "\n\nclass B:\n    def __init__(self):\n" + _long(36, "        ", "") + "\n",
+    "bom.py": b"\xef\xbb\xbfdef bom_first(a):\n" + _long(36, "    ", "").encode() + b"    return a\n",                                   # UTF-8 with a byte-order mark, function on line 1
+    "cp1251.py": b"# -*- coding: cp1251 -*-\ndef \xee\xf2\xf7\xb8\xf2(a):\n" + _long(38, "    ", "").encode() + b"    return a\n",      # PEP 263 cookie, identifier bytes that are not UTF-8
     "cmt.c": "int f(int a) {\n// only a comment\n" + "".join(f"  v{i} = {i}; /* c */\n\n" for i in range(32)) + "  return a;\n}\n",
 }
 REAL_NAMES = sorted(REAL_FILES)
@@ -499,6 +504,9 @@ def _check_real(fi, ai, quiet):
         setp(mod, "Path", FP)
         setp(mod, "open", fs.open)
         setp(mod, "get_lexer_for_filename", lambda p: _real_glff(str(p)))
+    import io
+    import tokenize
+    setp(tokenize, "_builtin_open", lambda f, mode="rb", *a, **k: io.BytesIO(fs.read(str(f), binary=True)))      # tokenize.open() is one more way to read a source file
     setp(scn, "relpath", fos.relpath)
     setp(scn, "calculate_checksum", lambda p: hashlib.md5(fs.read(str(p), binary=True)).hexdigest())
     setp(scn, "generate_exclude_spec", lambda root: _real_spec(FP(str(root))))
